@@ -130,8 +130,8 @@ func (l *liveRun) pattern() string {
 }
 
 // restart opens a fresh index + corpus over a copy of the live rows in a new
-// store of the same kind; file-backed stores are closed and opened again
-// after the copy, so that the index really reads what is on disk.
+// store of the same kind. (Closing and reopening the very same file is the
+// separate reopen-same-file comparison at the end of every history.)
 func restart(kind *kvKind, set *Set, rows sorted.KeyValue, src *hs.Mem, filter func(k, v string) bool, extra map[string]string) (*inst, error) {
 	st, err := kind.open("", nil)
 	if err != nil {
@@ -155,11 +155,6 @@ func restart(kind *kvKind, set *Set, rows sorted.KeyValue, src *hs.Mem, filter f
 	for k, v := range extra {
 		if err := st.kv.Set(k, v); err != nil {
 			st.discard()
-			return nil, err
-		}
-	}
-	if kind.fileBacked() {
-		if st, err = st.reopen(); err != nil {
 			return nil, err
 		}
 	}
@@ -313,7 +308,7 @@ func (l *liveRun) classify(lobs []ob, diffs []diff) (map[int]string, error) {
 			if _, done := labels[i]; done {
 				continue
 			}
-			if hv, ok := lookup(hobs, d.M, d.A); ok && hv == d.Live {
+			if hv, ok := lookup(hobs, d); ok && hv == d.Live {
 				labels[i] = h.label
 			}
 		}
